@@ -1,5 +1,6 @@
 import Orca.Lemmas.SemBranch
 import Orca.Lemmas.SpecialFlat
+import Orca.Lemmas.StackSpec
 /-!
 # C20 — semantic-after probes fire exactly once after the instruction
 
@@ -129,3 +130,15 @@ theorem c20_flat_semantic_after_placed (f : Orca.Lower.Func) (pre region post : 
   Orca.Lower.semAfter_placed f pre region post sel endI pr hbody hpne hsp hentry hexit hpre hreg hend hpost hsel hk hendk n n2 hd1 hd2 hd3
 
 end Orca.Sem
+
+namespace Orca.Lower
+
+/-- **flat code, every plan.** Not only a single probe (`…_placed` above): for any number of semantic-after (on constructs) probes, together with any other
+    block-level probes and `before` / `after` code, on any constructs nested in any way, the encoded function is what the stack machine
+    `specRun` defines (Lemmas/StackSpec.lean), which puts semantic-after (on constructs) code behind the matching `end` (`specStep`: the frame's `afterA` list is emitted behind the `end` that pops it; the probes of an `else` join those of its `if`). -/
+theorem c20_flat_every_plan (f : Func) (hsp : f.hasSpecial = true) (hentry : f.entry = []) (hexit : f.exit = [])
+    (hp : ∀ x ∈ f.body, Plain x) (out : List Tok) (hs : specRun (f.body.length - 1) 0 [{}] f.body = some out) :
+    lower f = (out, f.added) :=
+  lower_eq_spec f hsp hentry hexit hp out hs
+
+end Orca.Lower
